@@ -29,6 +29,17 @@ def req_lines(kind):
         return F.lines(F.base(1, 1, 1, 4, (3, 2, 1))) + ['Units:Bottom-hole temperature, degF', 'Units:Net Electricity Production, kW']
     if kind == 'okD2':   # district heating with daily-resolution demand (thorough)
         return F.lines(F.override(F.base(2, 2, 7, 4, (3, 2, 1)), {'District Heating Demand Data Time Resolution': '2'}))
+    if kind == 'okDef':    # almost everything left to the documented defaults
+        return ['End-Use Option, 2', 'Reservoir Model, 4', 'Plant Lifetime, 3', 'Time steps per year, 2', 'Print Output to Console, 0']
+    if kind == 'okOdd':    # many non-default values, incl. the list-valued gradient/thickness parameters and several segments
+        return F.lines(F.override(F.base(2, 2, 9, 4, (3, 2, 1)), {
+            'Number of Segments': '3', 'Gradient 1': '71', 'Gradient 2': '33', 'Gradient 3': '95', 'Thickness 1': '1.2', 'Thickness 2': '0.9', 'Reservoir Depth': '2.7',
+            'Maximum Temperature': '310', 'Surface Temperature': '9', 'Ambient Temperature': '4', 'Number of Production Wells': '4', 'Number of Injection Wells': '1',
+            'Production Well Diameter': '9.5', 'Injection Well Diameter': '6.5', 'Production Flow Rate per Well': '33', 'Injection Temperature': '61', 'Water Loss Fraction': '0.07',
+            'Reservoir Heat Capacity': '1111', 'Reservoir Density': '2555', 'Reservoir Thermal Conductivity': '3.3', 'Well Drilling Cost Correlation': '3',
+            'Discount Rate': '0.083', 'Fixed Internal Rate': '9.1', 'Starting Heat Sale Price': '0.041', 'Ending Heat Sale Price': '0.077', 'Utilization Factor': '0.71'}))
+    if kind == 'failX':    # aborts through a bare sys.exit() inside the core (user-provided temperature profile that does not exist)
+        return F.lines(F.override(F.base(2, 2, 9, 4, (3, 2, 1)), {'Reservoir Model': '5', 'Reservoir Output File Name': 'no-such-profile.txt'}))
     if kind == 'failR':
         return F.lines(F.override(F.base(1, 1, 1, 4, (3, 2, 1)), {'Gradient 1': '9999'}))
     if kind == 'failC':
@@ -41,9 +52,10 @@ def req_lines(kind):
     raise KeyError(kind)
 
 
-EVENTS_QUICK = ['okE/c', 'okH/c', 'okA/c', 'okD/c', 'okU/c', 'okX/c', 'hip', 'failR/c', 'failC/c', 'failP/c', 'rewrite/c', 'okE/n']
-EVENTS_L3 = ['okE/c', 'okD/c', 'okU/c', 'failR/c', 'rewrite/c', 'okX/c']
-EVENTS_THOROUGH = EVENTS_QUICK + ['okD2/c', 'failR/n', 'okH/n']
+EVENTS_QUICK = ['okE/c', 'okH/c', 'okA/c', 'okD/c', 'okU/c', 'okX/c', 'okDef/c', 'okOdd/c', 'hip', 'failR/c', 'failC/c', 'failP/c', 'failX/c', 'rewrite/c',
+                'rewrite:failX/c', 'okE/n']
+EVENTS_L3 = ['okOdd/c', 'okDef/c', 'okU/c', 'failX/c', 'rewrite/c', 'rewrite:failX/c']
+EVENTS_THOROUGH = EVENTS_QUICK + ['okD2/c', 'failR/n', 'okH/n', 'rewrite:failR/c', 'okDef/n']
 
 
 def strip(text):
@@ -81,9 +93,10 @@ def replay_history(arg):
                 with open(params.output_file_path) as f:
                     rec['text'] = f.read()
             else:
-                if kind == 'rewrite':
+                if kind.startswith('rewrite'):
                     # overwrite the file behind the last requested path with other content and ask the same client again
-                    content_kind = 'okH' if last['kind'] != 'okH' else 'okE'
+                    wanted = kind.partition(':')[2]
+                    content_kind = wanted or ('okH' if last['kind'] != 'okH' else 'okE')
                     if last['path'] is None:
                         n_files['i'] += 1
                         last['path'] = str(sim.write_input(req_lines('okE'), name=f'r{n_files["i"]}.txt'))
@@ -158,7 +171,8 @@ def judge(history, out, refs, res):
         # (i) result equals the reference for the content the file has at call time
         if failing:
             if rec['outcome'] == 'ok':
-                check.fail(res, f'failing_request_succeeds/{kind}', f'{ctx}: request that fails in isolation returned a result')
+                check.fail(res, f'failing_request_succeeds/{kind}' + ('/after_rewrite' if ev.startswith('rewrite') else ''),
+                           f'{ctx}: request that fails in isolation returned a result')
         else:
             if rec['outcome'] != 'ok':
                 check.fail(res, f'request_fails_in_history/{kind}', f'{ctx}: succeeds in isolation but raised {rec.get("exc")}')
@@ -186,8 +200,10 @@ def task(payload):
             res['infra'].append(f'history replay failed: {tag[1]} {tag[2] if len(tag) > 2 else ""} history={h}')
             continue
         res['accepted'] += 1
+        nf = len(res['fails'])
         d = judge(h, tag[1], refs, res)
         res['states'].append(d)
+        res.setdefault('pairs', []).append((h, d, len(res['fails']) == nf))
         if len(h) > 1:
             res['nontrivial'].append(check.digest(h))
     res['sample'] = {'history': payload['histories'][0], 'start_dir': payload.get('start', 'A')}
@@ -196,7 +212,7 @@ def task(payload):
 
 def plan(tier, seed):
     events = EVENTS_QUICK if tier == 'quick' else EVENTS_THOROUGH
-    kinds = sorted({e.partition('/')[0] for e in events if not e.startswith('rewrite')} | {'okE', 'okH'})
+    kinds = sorted({e.partition('/')[0] for e in events if not e.startswith('rewrite')} | {'okE', 'okH', 'failX', 'failR'})
     outs = compute_references(kinds)
     # (iii) references agree across hash seeds and starting directories
     plan.ref_disagreements = []
@@ -217,14 +233,80 @@ def plan(tier, seed):
     return P
 
 
+def run_thorough(seed, budget=None):
+    """all histories of length <= 3 unpruned, then depth 4 with process-state pruning (DESIGN 3.3): a history is extended only
+    if its process-state digest has not been seen; the pruning assumption is tested on the unpruned levels."""
+    import time
+    mod = sys.modules[__name__]
+    col = check.Collector(PID, 'thorough', seed, module=mod.__name__)
+    budget = budget or e1.DEFAULT_BUDGET['thorough']
+    deadline = time.time() + budget
+    P = plan('thorough', seed)
+    col.planned = len(P)
+    digest_of = {}
+    ok_of = {}
+    for idx, tagged in runner.run_tasks(task, P, deadline=deadline):
+        if tagged[0] == 'ok':
+            for h, d, ok in tagged[1].pop('pairs', []):
+                digest_of[tuple(h)] = d
+                ok_of[tuple(h)] = ok
+        col.add(idx, P[idx], tagged)
+    if col.tasks < len(P):
+        col.capped = True
+    # soundness of the canonical state: equal digests at depth <= 2 must have equal one-step futures (all of which were executed)
+    events = EVENTS_THOROUGH
+    groups = {}
+    for h, d in digest_of.items():
+        if len(h) <= 2:
+            groups.setdefault(d, []).append(h)
+    collisions = 0
+    for d, hs in groups.items():
+        for e in events:
+            futures = {(digest_of.get(h + (e,)), ok_of.get(h + (e,))) for h in hs if h + (e,) in digest_of}
+            collisions += max(0, len([h for h in hs if h + (e,) in digest_of]) - 1)
+            if len(futures) > 1:
+                col.infra.append(f'canonicalisation unsound: histories with equal process-state digest {d} have different futures under {e}: {sorted(map(str, hs))[:4]}')
+    # depth 4: one representative per distinct digest reached at depth 3
+    reps = {}
+    for h, d in sorted(digest_of.items()):
+        if len(h) == 3:
+            reps.setdefault(d, h)
+    P4 = []
+    refs_slim = P[0]['refs'] if P else None
+    for d, h in reps.items():
+        H4 = [list(h) + [e] for e in events]
+        for i in range(0, len(H4), 5):
+            P4.append({'histories': H4[i:i + 5], 'refs': refs_slim, 'start': 'A'})
+    col.planned += len(P4)
+    base = len(P)
+    for idx, tagged in runner.run_tasks(task, P4, deadline=deadline):
+        if tagged[0] == 'ok':
+            tagged[1].pop('pairs', None)
+        col.add(base + idx, P4[idx], tagged)
+    if col.tasks < col.planned:
+        col.capped = True
+    col.rule = ('explicit-state search over request histories, each replayed in one real process: ALL histories of length <= 3 over 15 events (unpruned), then '
+                'depth 4 with process-state pruning: one representative per distinct process-state digest reached at depth 3, extended by every event. The pruning '
+                'assumption (equal digest => equal futures) is checked on every digest collision at depth <= 2 against the executed depth-3 extensions')
+    col.assumptions = ['functools memo tables and the pint registry are pure caches and excluded from the state comparison',
+                       'depth-4 coverage is complete only under the checked assumption that the process-state vector captures every module-level mutable the pipeline reads']
+    col.extra.update({'unpruned_histories': len(digest_of), 'distinct_digests_depth3': len(reps), 'pruned_frontier_depth4': len(P4) and sum(len(p['histories']) for p in P4),
+                      'digest_collisions_examined': collisions,
+                      'reference_disagreements_across_hash_seeds_or_dirs': getattr(plan, 'ref_disagreements', None)})
+    return col.finish(task)
+
+
 def run(tier, seed, budget=None):
+    if tier == 'thorough':
+        return run_thorough(seed, budget)
     mod = sys.modules[__name__]
     r = e1.run_generic(
         mod, PID, tier, seed, budget,
-        rule=('explicit-state search over request histories, each replayed in one real process: quick = ALL histories of length <= 2 over 12 events '
-              '(6 successful GEOPHIRES requests incl. add-ons, district heating, input units and output-unit directives; HIP-RA-X; 3 failing requests '
-              'that fail while reading / calculating / printing; rewrite-the-file-and-ask-again; a non-caching client) plus ALL histories of length 3 '
-              'over 6 events; thorough = all histories of length <= 3 over 15 events; starting directory alternates. References: each request alone '
+        rule=('explicit-state search over request histories, each replayed in one real process: quick = ALL histories of length <= 2 over 16 events '
+              '(8 successful GEOPHIRES requests incl. add-ons, district heating, input units, output-unit directives, an all-defaults request and a many-non-defaults '
+              'request; HIP-RA-X; 4 failing requests that fail while reading / calculating / printing / through a bare sys.exit(); rewrite-the-file-with-other-content '
+              '(succeeding or aborting)-and-ask-again; a non-caching client) plus ALL histories of length 3 over 6 events; thorough = all histories of length <= 3 '
+              'over 21 events + pruned depth 4; starting directory alternates. References: each request alone '
               'in pristine interpreters under PYTHONHASHSEED 0/1/12345 and two directories. States = digest of the process-state vector after the history'),
         assumptions=['functools memo tables are pure caches and excluded from the state comparison (reported in evidence)',
                      'result equality is on the complete parsed content of the returned result object (all categories and profile tables; metadata with paths/clock excluded) and on the full report text for HIP-RA-X'],
